@@ -257,6 +257,21 @@ def _run_shard(mod_name, tier, seed, n_cases, shard_idx, shrink_budget_s, collec
     n_shards = int(os.environ.get("VERIF_NSHARDS") or mod.TIERS[tier][0])
     from vlib import gen as _gen
     _gen.STRATUM = (shard_idx, n_shards, int(seed) // 1000)  # (shard seeds are VERIF_SEED*1000 + shard)
+    # regression tier: the shrunk descriptors of every defect that was repaired (replays/fixed/<ID>-*.json) run first, so
+    # that a defect that returns is reported by its own replay file within seconds
+    if shard_idx == 0:
+        import glob
+        for path in sorted(glob.glob(os.path.join(ROOT, "replays", "fixed", f"{mod.ID}-*.json"))):
+            with open(path) as f:
+                rdesc = json.load(f)["desc"]
+            ctx = execute_case(mod, rdesc, known, stats)
+            stats.hist["regression_replay"] = stats.hist.get("regression_replay", 0) + 1
+            if ctx.violations:
+                if collect:
+                    _collect(collected, ctx, rdesc)
+                    continue
+                stats.violations.append({"desc": rdesc, "violation": ctx.violations[0].to_json(), "shrunk": True, "replay_path": path})
+                return stats.to_json()
     if hasattr(mod, "extra_cases"):
         for i, desc in enumerate(mod.extra_cases(tier)):
             if i % n_shards != shard_idx:
